@@ -287,7 +287,9 @@ class bin_stream_container(bin_stream):
 class bin_stream_pe(bin_stream_container):
     def __init__(self, binary, *args, **kwargs):
         super(bin_stream_pe, self).__init__(binary, *args, **kwargs)
-        self.endianness = binary._sex
+        # PE images are little endian (binary._sex is the loader's own flag,
+        # not a LITTLE_ENDIAN/BIG_ENDIAN constant)
+        self.endianness = LITTLE_ENDIAN
 
 
 class bin_stream_elf(bin_stream_container):
